@@ -42,6 +42,8 @@ def family_F():
                     'pointer options'))
     F.append(Schema('F18', [Opt('sec', 'mt', 'MT', sub=[Opt('sec', 'in', 'M', sub=[Opt('int', 'x', '', 1)])]),
                             Opt('int', 'l', 'L', [b'1'])], 'multi inside titled multi'))
+    F.append(Schema('F19', [Opt('sec', 'root', 'MT', sub=[Opt('int', 'x', '', 1)]), Opt('int', 'i', '', 5)],
+                    "a titled multi section that happens to be named 'root' (the name of the top-level context)"))
     return F
 
 
